@@ -11,6 +11,11 @@ require (
 	pgregory.net/rapid v1.3.0
 )
 
-require github.com/bytedance/gopkg v0.1.4 // indirect
+require (
+	github.com/bytedance/gopkg v0.1.4 // indirect
+	github.com/dlclark/regexp2 v1.11.0 // indirect
+	golang.org/x/text v0.14.0 // indirect
+	gopkg.in/yaml.v3 v3.0.1 // indirect
+)
 
 replace github.com/cloudwego/thriftgo => /repo
